@@ -1,18 +1,18 @@
-SPECIFICATION Spec
+SPECIFICATION SpecR
 CONSTANTS
   NoLimit = NoLimit
   Nodes = {1, 2}
   Pairs <- AllPairs
   MaxAtt = 2
-  MaxDisc = 1
-  MaxSubs = 1
+  MaxDisc = 0
+  MaxSubs = 0
   Sequential = FALSE
-  Abandons = FALSE
-  Timeouts = TRUE
+  Abandons = TRUE
+  Timeouts = FALSE
   Limits <- NoLimits
   Affs <- NoAffs
+  Depth = 60
 INVARIANT Invariants
-INVARIANT MutualAtQuiescence
-INVARIANT DialerLearns
-PROPERTY StaleExitHarmless
+INVARIANT Emit
+CONSTRAINT DepthBound
 CHECK_DEADLOCK FALSE
